@@ -8,6 +8,7 @@ package main
 import (
 	"fmt"
 	"math/bits"
+	"runtime"
 
 	"github.com/openacid/low/bitmap"
 )
@@ -167,6 +168,59 @@ func init() {
 			s2[k] = L(I32(x), I32(y))
 		}
 		return L(I32s(l), L(s1...), L(s2...))
+	}
+	// one slice, queries and IN-PLACE updates (k = 2: set bit i) in order
+	Exec["bitmap.Next/session"] = func(a []V) string {
+		bm := c13Unrle(a[0])
+		want := append([]uint64{}, bm...)
+		r := make([]int32, 0, len(a[1].L))
+		for _, st := range a[1].L {
+			k, i, e := st.L[0].Int(), st.L[1].I32(), st.L[2].I32()
+			switch k {
+			case 0:
+				r = append(r, bitmap.NextOne(bm, i, e))
+			case 1:
+				r = append(r, bitmap.PrevOne(bm, i, e))
+			default:
+				bm[i>>6] |= 1 << (uint(i) & 63)
+				want[i>>6] |= 1 << (uint(i) & 63)
+				r = append(r, 0)
+			}
+		}
+		same := len(bm) == len(want)
+		for i := range want {
+			same = same && bm[i] == want[i]
+		}
+		return L(I32s(r), B(same))
+	}
+	Exec["bitmap.NextOne/huge"] = Exec["bitmap.NextOne/sparse"]
+	// one bitmap after another: A is queried and dropped, the GC runs, B of the same length is allocated
+	Exec["bitmap.Next/realloc"] = func(a []V) string {
+		run := func(bm []uint64, qs []V) string {
+			r := make([]int32, 0, len(qs))
+			for _, q := range qs {
+				if q.L[0].Int() == 0 {
+					r = append(r, bitmap.NextOne(bm, q.L[1].I32(), q.L[2].I32()))
+				} else {
+					r = append(r, bitmap.PrevOne(bm, q.L[1].I32(), q.L[2].I32()))
+				}
+			}
+			return I32s(r)
+		}
+		rounds := a[0].Int()
+		out := make([]string, 0, rounds)
+		for k := 0; k < rounds; k++ {
+			bma := c13Unrle(a[1])
+			ra := run(bma, a[2].L)
+			bma = nil
+			runtime.GC()
+			bmb := c13Unrle(a[3])
+			rb := run(bmb, a[4].L)
+			bmb = nil
+			runtime.GC()
+			out = append(out, L(ra, rb))
+		}
+		return L(out...)
 	}
 	// diagnostic only (generator "C13x"): any int32 i, end
 	Exec["bitmap.NextOne/any"] = Exec["bitmap.NextOne/sparse"]
@@ -857,5 +911,109 @@ func genC13Sessions(g *Gen) {
 		g.Exhaust = append(g.Exhaust, "sessions on one held slice: all 81 bitmaps of 4 words over {0,1,1<<63}, every bitmap of 4 words over {0,1,1<<63,all-ones} and of 5 words over {0,1,1<<63} with at most two non-zero words, x every ordered pair of NextOne/PrevOne queries with i, end in {64k-1,64k,64k+1}, run consecutively")
 	} else {
 		g.Exhaust = append(g.Exhaust, "sessions on one held slice: every bitmap of 4 words over {0,1,1<<63} with at most two non-zero words x every ordered pair of NextOne/PrevOne queries with i, end in {64k-1,64k,64k+1}, run consecutively")
+	}
+}
+
+// genC13Big: state that only big bitmaps trigger (called right after the sessions, both tiers).
+//  (B1) sessions with IN-PLACE updates on bitmaps of 1024..4100 words with zero runs >= 256 words:
+//       a long-gap scan, then a bit set in a previously empty word, then queries whose answer is that bit;
+//  (B2) one bitmap after another (drop, GC, allocate the same length again) with 1-bits outside the
+//       span of the previous bitmap's 1-bits;
+//  (B3) NextOne over a range of more than 2^23 bits whose only 1-bit is in its last word.
+func genC13Big(g *Gen) {
+	q := func(k, i, e int) string { return L(Int(k), Int(i), Int(e)) }
+	// (B1)
+	for k, nb := 0, g.N(12, 60); k < nb; k++ {
+		nw := g.R.Range(1024, 4100)
+		n := 64 * nw
+		bm := make([]uint64, nw)
+		// two or three islands, each followed by a zero run of >= 256 words
+		var isl []int
+		w := g.R.Intn(40)
+		for w < nw-300 && len(isl) < 3 {
+			isl = append(isl, w)
+			bm[w] = 1 << uint(g.R.Intn(64))
+			if g.R.Bool() && w+1 < nw {
+				bm[w+1] = g.R.Word() | 1
+			}
+			w += g.R.Range(260, 1500)
+		}
+		if len(isl) == 0 {
+			isl = append(isl, 5)
+			bm[5] = 1
+		}
+		init := append([]uint64{}, bm...) // the argument: the bitmap before the updates
+		var steps []string
+		// long-gap scans (both kinds), repeated
+		first := isl[0]*64 + 64*2
+		steps = append(steps, q(0, first, n), q(1, 0, n), q(0, 0, n), q(0, first, n))
+		if k%3 == 0 {
+			steps = steps[1:] // start with the PrevOne scan
+		}
+		nupd := 0
+		for u, nu := 0, g.R.Range(1, 3); u < nu; u++ {
+			// set a bit in an empty word inside a gap, then ask for it from both sides
+			ew := isl[g.R.Intn(len(isl))] + g.R.Range(3, 250)
+			if ew >= nw || bm[ew] != 0 {
+				continue
+			}
+			p := 64*ew + g.R.Intn(64)
+			from := 64 * (ew - g.R.Range(1, 3))
+			steps = append(steps, q(2, p, 0), q(0, from, n), q(1, 0, 64*(ew+2)), q(0, p, p+1), q(1, p, p+1),
+				q(0, first, n), q(1, 0, n))
+			bm[ew] |= 1 << (uint(p) & 63) // the generator's picture of the bitmap, for the next update
+			nupd++
+		}
+		g.Stat("big-session")
+		g.Do("bitmap.Next/session", L(c13Rle(init), L(steps...)), fmt.Sprintf("bigsess/isl%d/u%d", len(isl), nupd))
+	}
+	// small sessions with updates too (the same op on bitmaps below every threshold)
+	for k, ns := 0, g.N(60, 1500); k < ns; k++ {
+		bm, marks := c13wBitmap(g, g.R.Range(1, 3), func(int) int { return g.R.Intn(5) }, g.R.Intn(3))
+		n := 64 * len(bm)
+		var steps []string
+		for s, m := 0, g.R.Range(3, 12); s < m; s++ {
+			i, e := c13wRange(g, bm, marks, nil)
+			switch g.R.Intn(3) {
+			case 0:
+				steps = append(steps, q(2, g.R.Intn(n), 0))
+			case 1:
+				steps = append(steps, q(0, i, e))
+			default:
+				if e >= 1 {
+					steps = append(steps, q(1, i, e))
+				}
+			}
+		}
+		g.Stat("small-session")
+		g.Do("bitmap.Next/session", L(c13Rle(bm), L(steps...)), fmt.Sprintf("sess-upd/nw%d", len(bm)))
+	}
+	// (B2)
+	for k, nr := 0, g.N(2, 10); k < nr; k++ {
+		nw := 4104 + g.R.Intn(900) // > 32 KB: a "large object" of the Go heap, which is re-used at the same address
+		n := 64 * nw
+		mk := func(ws ...int) []uint64 {
+			bm := make([]uint64, nw)
+			for _, w := range ws {
+				bm[w] |= 1 << (uint(w) & 63)
+			}
+			return bm
+		}
+		lo := g.R.Range(1200, nw/2-300)
+		hi := g.R.Range(nw/2+300, nw-1200)
+		a := mk(lo, lo+1, hi)
+		b := mk(g.R.Range(0, lo-300), lo, (lo+hi)/2, hi, g.R.Range(hi+300, nw-1))
+		qs := L(q(0, 0, n), q(1, 0, n), q(0, 64*50, 64*(nw-50)), q(1, 64*50, 64*(nw-50)))
+		g.Stat("realloc")
+		g.Do("bitmap.Next/realloc", L(Int(g.N(6, 12)), c13Rle(a), qs, c13Rle(b), qs), fmt.Sprintf("realloc/k%d", k))
+	}
+	// (B3)
+	for k, nh := 0, g.N(2, 6); k < nh; k++ {
+		nw := 1<<17 + 3 + 2*k
+		bm := make([]uint64, nw)
+		p := 64*nw - 1 - g.R.Intn(64)
+		bm[p>>6] = 1 << (uint(p) & 63)
+		g.Stat("huge")
+		g.Do("bitmap.NextOne/huge", L(c13Rle(bm), Int(k), Int(64*nw)), fmt.Sprintf("huge/k%d", k))
 	}
 }
